@@ -16,6 +16,7 @@ import PdModel.PyImp
 import PdProps.C07
 import PdProps.C04Base
 import PdProps.C04Clean
+import PdProps.C04Inh
 
 namespace Names
 open Registry
@@ -259,6 +260,82 @@ theorem resolve_order_independent (proj : Project) (rank : List Nat) (hwf : WF p
   (resolve_sound_partial proj rank hwf ord₁ ordPy m hm cp name a c h1 hpy hown).trans
     (resolve_sound_partial proj rank hwf ord₂ ordPy m hm cp name b c h2 hpy hown).symm
 
+/-! ## names that go through an INHERITED member
+
+`resolve_sound_partial` without the `pyOwn` hypothesis, for the decidable sub-class
+`classImportsUnique` of `WF`: a name bound by an import inside a class body (i) is not the name of a
+definition made inside a class body and (ii) the imports that bind the same name inside other class
+bodies bind it to the same thing (`ImpKey`: the same root module / the same module / the same name of
+the same module).  Base classes written in any way (names, dotted names through module aliases, nested
+classes, bases that resolve on one side only), multiple inheritance and imports in class bodies are all
+allowed.  The proof does NOT go through "pydoctor's MRO = Python's MRO": with globally unique
+definition names and `classImportsUnique` the BINDING of an attribute name is the same in every class
+body of the project that binds it, so whichever class of whichever linearisation either side finds the
+name in, it finds the same object (`class_bind_same`, `content_den`, `alias_den` in PdProps/C04Inh.lean;
+`Step` is the over-approximation of `type.__getattribute__`).  What is needed of pydoctor's
+linearisation is only that its members are class objects (`mro_member_class`, from the new invariant
+`CBase`) and that it starts with the class (`mroOf_final_head`).
+Outside `classImportsUnique` (`exBases` below: one base imports `y`, another defines `y`) the ORDER of
+the two linearisations decides; that needs soundness of base-class resolution and C05's
+`pd_eq_cpython` on top, and is left to the differential oracle. -/
+
+/-- **soundness, inherited members included** -/
+theorem resolve_sound_inherited (proj : Project) (rank : List Nat) (hwf : WF proj rank = true)
+    (hci : classImportsUnique proj = true) (ordPd ordPy : List Nat)
+    (m : Nat) (hm : m < proj.length) (cp : List Name) (name : Path) (i₁ i₂ : Ident)
+    (h1 : pdResolve proj ordPd m cp name = some i₁) (h2 : PyImp.pyDenotes proj ordPy m cp name = some i₂) :
+    i₁ = i₂ := by
+  have wf := WF.facts hwf
+  have ciu := CIU.of hci
+  obtain ⟨hI, hn, _⟩ := run_ok wf ordPd (run_clean hwf ordPd)
+  obtain ⟨S, sv, hcase, hj, hid⟩ := pyDenotes_jI wf h2
+  unfold pdResolve resolveIn at h1
+  generalize run proj ordPd = s at hI hn h1
+  cases hw : walk s.reg m cp with
+  | none => simp [hw] at h1
+  | some i =>
+    simp only [hw] at h1
+    cases hr : Names.resolveName (finalEnv s) i name with
+    | none => simp [hr] at h1
+    | some j =>
+      simp only [hr] at h1
+      obtain ⟨om, hom, hpm, hcm⟩ := hI.mods m hm
+      have hpi := walk_path hI.reg cp m i _ hpm hw
+      obtain ⟨oi, hoi⟩ : ∃ oi, s.reg.objs[i]? = some oi := ⟨s.reg.objs[i]'(path_lt hpi), by simp [path_lt hpi]⟩
+      obtain ⟨Si, hki, hpi'⟩ := hI.site i oi hoi
+      -- the scope pydoctor walked to is the scope Python walked to
+      have hSi : Si = S := by
+        rcases hcase with ⟨hcp, hS⟩ | ⟨hcp, hjc⟩
+        · subst hcp; subst hS
+          simp only [walk, Option.some.injEq] at hw; subst hw
+          rw [hpm] at hpi'; injection hpi' with hpi'
+          exact (site_unique wf hki.static ⟨hm, Or.inl rfl⟩ (by simpa [sitePath] using hpi'.symm))
+        · rw [hpi] at hpi'; injection hpi' with hpi'
+          have hc1 := canon_site wf hki.static
+          rw [← hpi'] at hc1
+          cases hcp' : cp with
+          | nil => exact absurd hcp' hcp
+          | cons y ys =>
+            rw [hcp'] at hjc hc1
+            have hc2 := AbsDen.ext (canon_mod wf m hm) (show Jpy proj (scopeOf (.mod m)) (y :: ys) _ from hjc)
+            have := AbsDen.fun wf hc1 hc2.weak
+            have h3 := congrArg scopeOf this
+            rw [scopeOf_svalOf] at h3
+            exact h3
+      subst hSi
+      have := resolve_sound_stateI wf ciu hI hn hoi hpi' hki hj hr
+      rw [this] at h1; injection h1 with h1
+      rw [← h1, hid]
+
+/-- order independence of the resolution of every Python-bound name, inherited members included -/
+theorem resolve_order_independent_inherited (proj : Project) (rank : List Nat) (hwf : WF proj rank = true)
+    (hci : classImportsUnique proj = true) (ord₁ ord₂ ordPy : List Nat)
+    (m : Nat) (hm : m < proj.length) (cp : List Name) (name : Path) (a b c : Ident)
+    (h1 : pdResolve proj ord₁ m cp name = some a) (h2 : pdResolve proj ord₂ m cp name = some b)
+    (hpy : PyImp.pyDenotes proj ordPy m cp name = some c) : a = b :=
+  (resolve_sound_inherited proj rank hwf hci ord₁ ordPy m hm cp name a c h1 hpy).trans
+    (resolve_sound_inherited proj rank hwf hci ord₂ ordPy m hm cp name b c h2 hpy).symm
+
 /-! ## completeness at the level of the project -/
 
 /-- on a finished clean state, an import statement of a processed module left exactly its alias entry -/
@@ -493,10 +570,38 @@ example : pdResolve exInherit [0, 1] 1 [] [['C'], ['I','n'], ['U']] = some (.dfn
 example : PyImp.pyDenotes exInherit [1, 0] 1 [] [['C'], ['I','n'], ['U']] = some (.dfn [['M'], ['C'], ['I','n'], ['U']]) := by
   decide +kernel
 example : PyImp.pyOwn exInherit [1, 0] 1 [] [['C'], ['I','n'], ['U']] = true := by decide +kernel
--- the inherited `C.g` is outside `pyOwn` (both sides happen to agree on it)
+-- the inherited `C.g` is outside `pyOwn`; it is covered by `resolve_sound_inherited`
 example : PyImp.pyOwn exInherit [0, 1] 1 [] [['C'], ['g']] = false := by decide +kernel
-example : pdResolve exInherit [0, 1] 1 [] [['C'], ['g']] = PyImp.pyDenotes exInherit [0, 1] 1 [] [['C'], ['g']] := by
+example : classImportsUnique exInherit = true := by decide +kernel
+example : pdResolve exInherit [0, 1] 1 [] [['C'], ['g']] = some (.dfn [['D'], ['K'], ['g']]) := by decide +kernel
+example : PyImp.pyDenotes exInherit [1, 0] 1 [] [['C'], ['g']] = some (.dfn [['D'], ['K'], ['g']]) := by decide +kernel
+example : pdResolve exInherit [0, 1] 1 [['C']] [['I','n'], ['W']] = some (.dfn [['M'], ['B'], ['W']]) := by decide +kernel
+example (a b : Ident) (h1 : pdResolve exInherit [1, 0] 1 [] [['C'], ['g']] = some a)
+    (h2 : PyImp.pyDenotes exInherit [0, 1] 1 [] [['C'], ['g']] = some b) : a = b :=
+  resolve_sound_inherited exInherit [0, 1] (by decide +kernel) (by decide +kernel) [1, 0] [0, 1] 1 (by decide) []
+    [['C'], ['g']] a b h1 h2
+
+/-- a class body that imports, inherited by a class of another module, through a module alias:
+```
+D.py   class K: (def g)
+M.py   import D
+       class B: from D import K as kk ; import D as dd
+N.py   import M as mm
+       class C(mm.B): pass
+``` -/
+def exInhImp : Project := [
+  ⟨[['D']], false, [.classDef ['K'] [] [.funcDef ['g']]]⟩,
+  ⟨[['M']], false, [.importMod [['D']] none,
+                    .classDef ['B'] [] [.importFrom 0 [['D']] ['K'] (some ['k','k']), .importMod [['D']] (some ['d','d'])]]⟩,
+  ⟨[['N']], false, [.importMod [['M']] (some ['m','m']), .classDef ['C'] [[['m','m'], ['B']]] []]⟩ ]
+
+example : WF exInhImp [0, 1, 2] = true := by decide +kernel
+example : classImportsUnique exInhImp = true := by decide +kernel
+example : pdResolve exInhImp [2, 1, 0] 2 [] [['C'], ['k','k'], ['g']] = some (.dfn [['D'], ['K'], ['g']]) := by decide +kernel
+example : PyImp.pyDenotes exInhImp [0, 1, 2] 2 [] [['C'], ['k','k'], ['g']] = some (.dfn [['D'], ['K'], ['g']]) := by
   decide +kernel
+example : pdResolve exInhImp [0, 1, 2] 2 [] [['C'], ['d','d'], ['K']] = some (.dfn [['D'], ['K']]) := by decide +kernel
+example : PyImp.pyDenotes exInhImp [2, 0, 1] 2 [] [['C'], ['d','d'], ['K']] = some (.dfn [['D'], ['K']]) := by decide +kernel
 
 /-! ## why the statement speaks of BOUND names
 
@@ -588,6 +693,9 @@ def exBases : Project := [
   ⟨[['M']], false, [.classDef ['B'] [] [.importFrom 0 [['D']] ['K'] (some ['y'])],
                     .classDef ['B','2'] [] [.funcDef ['y']],
                     .classDef ['C'] [[['B']], [['B','2']]] []]⟩ ]
+
+/-- `exBases` is `WF` but outside the sub-class of `resolve_sound_inherited`: `y` is imported in `B` and defined in `B2` -/
+example : classImportsUnique exBases = false := by decide +kernel
 
 /-- before d230b6e: `C.y` resolved to `M.B2.y`, Python binds `D.K` (inherited through the import in `B`);
 since d230b6e pydoctor agrees with Python on this name -/
